@@ -68,10 +68,13 @@ ParseMsg(raw) ==
                         bodyT |-> ps.Ts, body |-> br.v, bused |-> br.p - bstart,
                         total |-> Len(raw), bstart |-> bstart]
 
+(* the type each known header field must have *)
+FieldType(c) == CASE c = 1 -> "o" [] c \in {2, 3, 4, 6, 7} -> "s" [] c \in {5, 9} -> "u" [] c = 8 -> "g" [] OTHER -> "?"
+
 Required(t) == CASE t = 1 -> {1, 3} [] t = 2 -> {5} [] t = 3 -> {4, 5} [] t = 4 -> {1, 2, 3} [] OTHER -> {}
 
 (* fixed header, header-field array, zero padding to an 8-byte boundary, body of the declared
-   length, non-zero serial, required fields present, each code at most once *)
+   length, non-zero serial, required fields present, each code at most once and of its prescribed type *)
 WellFormed(raw) ==
     LET p == ParseMsg(raw) IN
     /\ p.ok
@@ -87,6 +90,7 @@ WellFormed(raw) ==
     /\ \A c \in Required(p.type) : \E f \in p.fields : f[1] = c
     /\ \A f, g \in p.fields : f[1] = g[1] => f = g
     /\ p.nflds - p.nsig = Cardinality(p.fields)         \* ... not even twice with the same value
+    /\ \A f \in p.fields : f[1] \in 1..9 => f[2] = <<FieldType(f[1])>>
 
 (* what parsing must recover from m *)
 Project(m) == [type |-> m.type, nr |-> m.nr, na |-> m.na, serial |-> m.serial,
